@@ -185,13 +185,13 @@ func unescapeCharPrefix(s string, isBytes bool) (value int32, encode bool, tail 
 		s = s[2:]
 		// Unicode escape sequences
 	case 'u':
-		if s[0] != '{' {
+		if len(s) == 0 || s[0] != '{' {
 			err = fmt.Errorf("unable to unescape string")
 			return
 		}
 		j := 1
 		var v rune
-		for s[j] != '}' && j < len(s) && j <= 7 {
+		for j < len(s) && s[j] != '}' && j <= 7 {
 			x, ok := unhex(s[j])
 			if !ok {
 				err = fmt.Errorf("unable to unescape string")
@@ -200,7 +200,7 @@ func unescapeCharPrefix(s string, isBytes bool) (value int32, encode bool, tail 
 			v = v<<4 | x
 			j++
 		}
-		if s[j] != '}' {
+		if j >= len(s) || s[j] != '}' {
 			err = fmt.Errorf("unable to unescape string")
 			return
 		}
